@@ -156,6 +156,7 @@ class Exec:
         self.instance = 'scaled'    # arithmetic interface instance for SVal: 'scaled' | 'real'
         self.hooks = {}             # pluggable: name -> callable (site obligations)
         self.inline_only = set()    # qualnames whose contract is ignored at call sites (body in-lined)
+        self._sat_cache = {}
         self.cur_props = None
         self.prune = True
         from . import builtins as _b, calls as _c
@@ -185,15 +186,31 @@ class Exec:
         "is the path condition (with extra) satisfiable?  unknown counts as yes"
         if not self.prune:
             return True
-        s = z3.Solver()
-        s.set('timeout', timeout)
-        for c in st.pc:
+        # incremental: the solver of the longest already-loaded prefix of this path condition is reused
+        cache = self._sat_cache
+        ids = tuple(c.get_id() for c in st.pc)
+        ent = cache.get('cur')
+        # (the entry keeps its ASTs alive, so an equal id prefix means the very same constraints)
+        if ent is not None and len(ent[1]) <= len(ids) and ids[:len(ent[1])] == ent[1]:
+            s = ent[0]
+            start = len(ent[1])
+        else:
+            s = z3.Solver()
+            s.set('timeout', timeout)
+            start = 0
+        for c in st.pc[start:]:
             if is_cheap(c):
                 s.add(c)
-        if extra is not None:
-            s.add(extra)
+        cache['cur'] = (s, ids, list(st.pc))
         self.solver_checks += 1
-        return s.check() != z3.unsat
+        if extra is not None:
+            s.push()
+            s.add(extra)
+            r = s.check()
+            s.pop()
+        else:
+            r = s.check()
+        return r != z3.unsat
 
     def lookup(self, name, st, fr):
         "returns SV or None(unbound local) ; raises Unsupported when unknown"
@@ -294,6 +311,11 @@ class Exec:
         if z3.is_true(cond):
             return k_true(st)
         if z3.is_false(cond):
+            return k_false(st)
+        cs = z3.simplify(cond)
+        if z3.is_true(cs):
+            return k_true(st)
+        if z3.is_false(cs):
             return k_false(st)
         t = self.sat(st, cond)
         f = self.sat(st, z3.Not(cond))
